@@ -44,6 +44,9 @@ Cases ==
   \cup [g : {"chain"}, n : {2}, v1 : {1, 3, 4, 5}, v2 : {1, 3, 4, 5}, v3 : {1}, els : {TRUE}, emp : {1, 2, 4}]
   \cup [g : {"case"}, s : 1..Len(SU), w1 : 1..Len(WhenLists), w2 : 1..Len(WhenLists), els : {TRUE}, emp : {1, 2, 4}]
   \cup [g : {"dual"}, v1 : 1..NCU]
+  \* and / or over values reached by a property lookup (m.x, m.y): exactly nil and false count as false, also when
+  \* the value sits behind a Drop or a pointer (second emitted variant)
+  \cup [g : {"logic"}, v1 : 1..NCU, v2 : {1, 2, 3, 4, 5}, op : {"and", "or"}]
   \* the same compiled conditional evaluated again and again with other values: inside a loop, the subject, the
   \* conditions and the when-values all depend on the loop variable
   \cup [g : {"loop"}, kind : {"case-when-var", "case-subject-var", "if-var", "unless-var", "case-when-prop"}, lo : 0..2, x : 0..3]
@@ -70,6 +73,12 @@ ProgOf(x) ==
              whens |-> << [vals |-> [i \in 1..Len(WhenLists[x.w1]) |-> Lit(SU[WhenLists[x.w1][i]])], body |-> MarkE(x, 1)],
                           [vals |-> [i \in 1..Len(WhenLists[x.w2]) |-> Lit(SU[WhenLists[x.w2][i]])], body |-> MarkE(x, 2)] >>
                           \o (IF x.els THEN <<[else |-> TRUE, vals |-> <<>>, body |-> MarkE(x, 4)]>> ELSE <<>>)] >>
+    [] x.g = "logic" ->
+         LET mx == [t |-> "prop", e |-> Var(<<109>>), name |-> <<120>>]
+             my == [t |-> "prop", e |-> Var(<<109>>), name |-> <<121>>]
+         IN  << [t |-> "if", branches |-> <<[c |-> [t |-> x.op, a |-> mx, b |-> my], body |-> Mark(1)], [c |-> ElseC, body |-> Mark(2)]>>],
+                [t |-> "if", neg |-> TRUE, branches |-> <<[c |-> [t |-> x.op, a |-> my, b |-> mx], body |-> Mark(2)], [c |-> ElseC, body |-> Mark(1)]>>],
+                [t |-> "if", branches |-> <<[c |-> mx, body |-> Mark(3)]>>] >>
     [] x.g = "loop" ->
          LET I == <<105>>
              XV == <<120>>
@@ -111,6 +120,7 @@ EnvOf2(x) ==
     [] x.g = "dual" -> << <<CN(1), CU[x.v1]>> >>
     [] x.g = "later" -> <<>>
     [] x.g = "loop" -> << <<<<120>>, IntV(x.x)>> >>
+    [] x.g = "logic" -> << <<<<109>>, MapV(<< <<<<120>>, CU[x.v1]>>, <<<<121>>, CU[x.v2]>> >>)>> >>
     [] x.g = "case" -> << <<<<115>>, SU[x.s]>> >>
     [] x.g \in {"nest", "tail"} -> << <<CN(1), CU[x.v1]>>, <<CN(2), CU[x.v2]>> >>
 
@@ -135,6 +145,9 @@ Decl(x) ==   \* [status, out]
     [] x.g = "case" ->
          [status |-> "ok", out |-> IF WMatch(x.w1, x.s) THEN ME(x, 1) ELSE IF WMatch(x.w2, x.s) THEN ME(x, 2)
                                    ELSE IF x.els THEN ME(x, 4) ELSE <<>>]
+    [] x.g = "logic" ->
+         LET r == IF x.op = "and" THEN Tr(x.v1) /\ Tr(x.v2) ELSE Tr(x.v1) \/ Tr(x.v2)
+         IN  [status |-> "ok", out |-> (IF r THEN M(1) \o M(1) ELSE M(2) \o M(2)) \o (IF Tr(x.v1) THEN M(3) ELSE <<>>)]
     [] x.g = "loop" ->
          LET hit(i) == CASE x.kind = "case-when-prop" -> x.x = i - x.lo       \* forloop.index0
                          [] OTHER -> i = x.x
@@ -173,6 +186,7 @@ IdOf(x) ==
     [] x.g = "dual" -> "dual-" \o ToString(x.v1)
     [] x.g = "later" -> "later-" \o ToString(x.pos) \o "-" \o ToString(x.sel)
     [] x.g = "case" -> "case-" \o ToString(x.s) \o "-" \o ToString(x.w1) \o "-" \o ToString(x.w2) \o "-" \o ToString(x.els) \o "-e" \o ToString(Emp(x))
+    [] x.g = "logic" -> "logic-" \o x.op \o "-" \o ToString(x.v1) \o "-" \o ToString(x.v2)
     [] x.g = "loop" -> "loop-" \o x.kind \o "-" \o ToString(x.lo) \o "-" \o ToString(x.x)
     [] x.g = "tail" -> "tail-" \o ToString(x.v1) \o "-" \o ToString(x.v2) \o "-" \o x.inner \o "-" \o x.outer
     [] x.g = "nest" -> "nest-" \o ToString(x.v1) \o "-" \o ToString(x.v2)
@@ -181,6 +195,10 @@ IdOf(x) ==
 CondRepr(v) == CASE v.k = "arr" -> "nilslice" [] v.k = "map" -> "nilmap" [] v.k = "nil" -> "nilptr" [] v.k = "bool" -> "ptr" [] OTHER -> "drop"
 EmitCase == st.status # "run" =>
               /\ PrintT(ToJson([id |-> IdOf(c), kind |-> "render", prog |-> ProgOf(c), env |-> EnvOf2(c)]))
+              /\ (c.g = "logic") =>
+                   PrintT(ToJson([id |-> "rep-" \o IdOf(c), kind |-> "render", prog |-> ProgOf(c), env |-> EnvOf2(c),
+                                  repr |-> ("m/x" :> (IF CU[c.v1].k \in {"arr", "map"} THEN CondRepr(CU[c.v1]) ELSE "drop"))
+                                           @@ ("m/y" :> <<"drop", "ptr", "drop", "dropdrop", "drop">>[c.v2])]))
               /\ (c.g \in {"dual", "nest"} \/ (c.g = "chain" /\ c.n = 1 /\ Emp(c) = 0)) =>
                    PrintT(ToJson([id |-> "rep-" \o IdOf(c), kind |-> "render", prog |-> ProgOf(c), env |-> EnvOf2(c),
                                   repr |-> ("c1" :> CondRepr(CU[c.v1])) @@ (IF c.g = "nest" THEN ("c2" :> CondRepr(CU[c.v2])) ELSE <<>>)]))
